@@ -480,3 +480,53 @@ def check_roundtrip(rep, fb, crates=None, rule_prefix="inv"):
                         rep.ob(rule_prefix + ".step.state", inst + "." + f, T.bequal(a, b, F), "equal chaining state after the step", loc, computed=T.bshow(b), expected=T.bshow(a))
         except Undecided as ex:
             rep.undecided(rule_prefix + ".step", inst, str(ex), loc)
+
+
+# ---------------------------------------------------------------- positive controls for the term rules
+# (specimen module, rule, must the obligation hold?)  -- /verif/fixtures/src/modes.rs
+TERM_CONTROLS = [
+    ("good", "def.out", True),
+    ("good", "def.state", True),
+    ("good", "alias.same.out", True),
+    ("good", "alias.no-old-output", True),
+    ("stale_iv", "def.state", False),
+    ("xor_after", "def.out", False),
+    ("chain_plain", "def.state", False),
+    ("alias_reread", "alias.same.out", False),
+    ("old_output", "alias.no-old-output", False),
+    ("par_good", "par.closed-form.out", True),
+    ("par_good", "par.closed-form.state", True),
+    ("par_lane_shift", "par.closed-form.out", False),
+    ("par_state_first", "par.closed-form.state", False),
+]
+
+
+def run_term_controls(rep, prefixes):
+    """compile the CBC-shaped specimens of /verif/fixtures with the same driver, run the term rules
+    on them with the CBC definition as oracle, and require every broken kernel to be reported and
+    the correct ones to be accepted: an equality engine that says 'equal' (or 'unequal') to
+    everything cannot pass."""
+    from . import itemrules as IR
+    from . import facts as FX
+    from .report import Report
+    todo = [c for c in TERM_CONTROLS if any(c[1].startswith(p) for p in prefixes)]
+    try:
+        fb, cleanup = IR.fixtures_factbase()
+    except FX.FactsError as e:
+        rep.ob("control.extract", "fixtures", False, str(e)[-600:])
+        return
+    try:
+        S.BLOCK_MODES["bmsa_fixtures"] = S.BLOCK_MODES["cbc"]
+        sc = Report("controls")
+        check_definition(sc, fb, ["bmsa_fixtures"])
+        check_par(sc, fb, ["bmsa_fixtures"])
+        check_inplace(sc, fb, ["bmsa_fixtures"])
+        for mod, rule, want in todo:
+            hits = [o for o in sc.obls if o["rule"] == rule and ("::%s::" % mod) in o["instance"]]
+            got = [o["ok"] for o in hits]
+            ok = bool(got) and all(g == want for g in got)
+            rep.ob("control." + rule, mod, ok, "specimen `%s` is %s by rule %s (%d obligations: %s)" % (
+                mod, "accepted" if want else "reported", rule, len(got), got))
+    finally:
+        S.BLOCK_MODES.pop("bmsa_fixtures", None)
+        cleanup()
